@@ -181,6 +181,9 @@ fn value(p: &mut Parser<'_>, skip: Skip) -> Result<Option<Checkpoint<PointerU32>
                 return Ok(None);
             }
 
+            // Keep the group together as one node, so that the parentheses
+            // are never left as loose tokens next to their content.
+            p.close_at(&c, OPERATION)?;
             Ok(Some(c))
         }
         _ => Ok(None),
